@@ -36,6 +36,8 @@ def cases(draw, npoints=24):
         pr["K"]["max_K"] = None
     if pr["s"]["kind"] == "const0":
         pr["s"] = {"kind": "const", "unit": pr["s"]["unit"], "value": 0.0}
+    if draw(st.integers(0, 5)) == 0:
+        pr["e_fixed"] = draw(st.sampled_from([0.0, 0.0, 0.3]))     # a prior that holds the eccentricity constant
     pts = []
     lo = float(og.conv(pr["P"]["min"], pr["P"]["unit"], "d"))
     hi = float(og.conv(pr["P"]["max"], pr["P"]["unit"], "d"))
@@ -121,7 +123,7 @@ def body_factory(ctx):
             else:
                 P_pu = a_pu + (b_pu - a_pu) * pt_["uP"]
             P_d = float(og.conv(P_pu, Ppu, "d"))
-            e = pt_["e"]
+            e = pt_["e"] if pr.get("e_fixed") is None else float(pr["e_fixed"])
             sj = pr["s"]
             if sj["kind"] == "lognormal":
                 s_pu = math.exp(sj["mu"] + sj["sigma"] * pt_["zs"])
@@ -193,7 +195,8 @@ def body_factory(ctx):
             dens = 0.0
             if pr["P"]["kind"] == "uniformlog":
                 dens += -math.log(P_pu)
-            dens += float(ss.beta.logpdf(e, 0.867, 3.03))
+            if pr.get("e_fixed") is None:
+                dens += float(ss.beta.logpdf(e, 0.867, 3.03))
             if sj["kind"] == "lognormal":
                 dens += float(ss.lognorm.logpdf(s_pu, sj["sigma"], scale=math.exp(sj["mu"])))
             K = pr["K"]
@@ -223,6 +226,7 @@ def body_factory(ctx):
         ctx.note_case(spec, nondef, ["K:" + pr["K"]["kind"], "P:" + pr["P"]["kind"], "Punit:" + pr["P"]["unit"],
                                      "s:" + pr["s"]["kind"], "poly=%d" % prob.poly_trend, "noff=%d" % prob.n_offsets,
                                      "init:n=%s" % ("1" if n_init == 1 else ">1"), "data:" + spec["data_kind"],
+                                     "e:" + ("sampled" if pr.get("e_fixed") is None else "fixed at %g" % pr["e_fixed"]),
                                      "t_ref:%s" % (spec.get("t_ref_scale", "tcb") if spec.get("t_ref") else "default"),
                                      "prior K unit %s data unit" % ("==" if str(units_prior["K"]) == str(og.unit(du)) else "!=")])
 
